@@ -1,7 +1,7 @@
 //! C09 — hiding: every commitment carries fresh independent blinding from the prover RNG.
 use crate::choices::Choices;
 use crate::curves::{Curve, CurveTag};
-use crate::drive::{bp_gens, pc_gens, run_prover, CountingRng, ProveOpts, ProveOut};
+use crate::drive::{bp_gens, prog_pc, run_prover, CountingRng, ProveOpts, ProveOut};
 use crate::mirror::{ProofMirror, POINT_NAMES};
 use crate::program::{gen_program, Cap, GenCfg};
 use crate::props::c03::extract_challenges;
@@ -34,7 +34,7 @@ fn mulg<G: AffineRepr>(p: &G, s: &Fr<G>) -> G::Group {
 
 fn case<G: CurveTag>(bytes: &[u8], col: &mut Collector, max_gates: usize) -> Result<(), Failure> {
     let mut ch = Choices::new(bytes);
-    let cfg = GenCfg { max_ops1: 8, max_closures: 2, max_ops2: 5, max_commits: 3, big_gates: 0 , max_terms: 4};
+    let cfg = GenCfg { max_ops1: 8, max_closures: 2, max_ops2: 5, max_commits: 3, big_gates: 0 , max_terms: 4, wide: false};
     let mut prog = gen_program(&mut ch, G::CURVE, &cfg);
     prog.cap_p = Cap::Big;
     let shape = prog.shape();
@@ -143,7 +143,7 @@ fn case<G: CurveTag>(bytes: &[u8], col: &mut Collector, max_gates: usize) -> Res
     }
 
     // ---- 4. per-draw sensitivity probes -----------------------------------------------------
-    let pc = pc_gens::<G>();
+    let pc = prog_pc::<G>(&prog);
     let gens = bp_gens::<G>(256, prog.party_cap as usize);
     let gv: Vec<G> = gens.G(n.max(1), 1).cloned().collect();
     let hv: Vec<G> = gens.H(n.max(1), 1).cloned().collect();
